@@ -204,3 +204,105 @@ theorem lastRow_of_mem (rows : List Row) (hk : (rows.map rkey).Nodup)
       exact ih _ hnd.2 hlt' hrlt (Or.inr ⟨h.1, fun x hx => h.2 x (List.mem_cons_of_mem _ hx)⟩)
 
 end C04
+
+namespace C04
+open Gen
+
+theorem setSize_ok {o : Outcome} {n : Nat} {i : Inst} (h : o.setSize n = .ok i) : i.size = n := by
+  cases o with
+  | ok j => simp only [Outcome.setSize, Outcome.ok.injEq] at h; subst h; rfl
+  | err => simp [Outcome.setSize] at h
+  | notImpl => simp [Outcome.setSize] at h
+
+theorem decodeRow_size (c : Bool) (f : Format) (row : Row) (w0 : Nat) (w1? : Option Nat) (i : Inst)
+    (h : decodeRow c f row w0 w1? = .ok i) : i.size = 4 ∨ (i.size = 8 ∧ w1?.isSome = true) := by
+  unfold decodeRow at h
+  simp only at h
+  generalize dec4 _ row w0 = d4 at h
+  generalize (f.size == 8) = b at h
+  cases b with
+  | true =>
+    simp only [if_true] at h
+    cases w1? with
+    | none => simp at h
+    | some w1 => exact Or.inr ⟨setSize_ok h, rfl⟩
+  | false =>
+    simp only [Bool.false_eq_true, if_false] at h
+    cases d4 with
+    | none => simp at h
+    | some d =>
+      cases d with
+      | done j => simp only [Outcome.ok.injEq] at h; subst h; exact Or.inl rfl
+      | err => simp at h
+      | more k =>
+        cases w1? with
+        | none => simp at h
+        | some w1 => exact Or.inr ⟨setSize_ok h, rfl⟩
+
+theorem decodeCore_size (look : Nat → Nat → Option Row) (c : Bool) (w0 : Nat) (w1? : Option Nat) (i : Inst)
+    (h : decodeCore look c w0 w1? = .ok i) : i.size = 4 ∨ (i.size = 8 ∧ w1?.isSome = true) := by
+  unfold decodeCore at h
+  generalize matchFormat w0 = mf at h
+  cases mf with
+  | none => simp at h
+  | some f =>
+    simp only at h
+    generalize look f.ft _ = lr at h
+    cases lr with
+    | none => simp at h
+    | some row => exact decodeRow_size c f row w0 w1? i h
+
+
+theorem getD_take_append (buf t : List Nat) (n k : Nat) (hk : k < n) (hn : n ≤ buf.length) :
+    (buf.take n ++ t).getD k 0 = buf.getD k 0 := by
+  have h1 : k < (buf.take n).length := by simp [List.length_take]; omega
+  simp only [List.getD_eq_getElem?_getD]
+  rw [List.getElem?_append_left h1, List.getElem?_take]
+  simp [hk]
+
+theorem le32_take_append (buf t : List Nat) (n off : Nat) (h : off + 4 ≤ n) (hn : n ≤ buf.length) :
+    le32 (buf.take n ++ t) off = le32 buf off := by
+  unfold le32
+  rw [getD_take_append buf t n off (by omega) hn, getD_take_append buf t n (off+1) (by omega) hn,
+      getD_take_append buf t n (off+2) (by omega) hn, getD_take_append buf t n (off+3) (by omega) hn]
+
+theorem decodeRow_indep4 (c : Bool) (f : Format) (row : Row) (w0 : Nat) (w1? w1' : Option Nat) (i : Inst)
+    (h : decodeRow c f row w0 w1? = .ok i) (h4 : i.size = 4) : decodeRow c f row w0 w1' = .ok i := by
+  unfold decodeRow at h ⊢
+  simp only at h ⊢
+  generalize dec4 _ row w0 = d4 at h ⊢
+  generalize (f.size == 8) = b at h ⊢
+  cases b with
+  | true =>
+    simp only [if_true] at h
+    cases w1? with
+    | none => simp at h
+    | some w1 => have := setSize_ok h; omega
+  | false =>
+    simp only [Bool.false_eq_true, if_false] at h ⊢
+    cases d4 with
+    | none => simp at h
+    | some d =>
+      cases d with
+      | done j => exact h
+      | err => simp at h
+      | more k =>
+        cases w1? with
+        | none => simp at h
+        | some w1 => have := setSize_ok h; omega
+
+theorem decodeCore_indep4 (look : Nat → Nat → Option Row) (c : Bool) (w0 : Nat) (w1? w1' : Option Nat) (i : Inst)
+    (h : decodeCore look c w0 w1? = .ok i) (h4 : i.size = 4) : decodeCore look c w0 w1' = .ok i := by
+  unfold decodeCore at h ⊢
+  generalize matchFormat w0 = mf at h ⊢
+  cases mf with
+  | none => simp at h
+  | some f =>
+    simp only at h ⊢
+    generalize look f.ft _ = lr at h ⊢
+    cases lr with
+    | none => simp at h
+    | some row => exact decodeRow_indep4 c f row w0 w1? w1' i h h4
+
+
+end C04
